@@ -9,7 +9,7 @@ import json
 import os
 import random
 
-from vlib import build_harness, log, ToolError, VERIF_METATYPES, translate
+from vlib import write_ndjson, build_harness, log, ToolError, VERIF_METATYPES, translate, tlc
 from vlib import lang, progs as P
 
 RULE = ("case = program; (i) well-typed programs from the typed generators (accepted without diagnostics expected), "
@@ -133,6 +133,22 @@ def const_undefined(e):
     return walk(e)
 
 
+def type_sound(chk, progs):
+    """M leg: the two halves of the language model agree (TypeSound.tla) -- what Typing.tla admits evaluates under Lang.tla, in every state of
+    its domain, to undefined or to a value of the kind of the bound property.  An inconsistency is an error of the oracle, not of the code."""
+    path = os.path.join(chk.work, "typesound.ndjson")
+    write_ndjson(path, [{"prop": p["prop"], "body": p["body"]} for p in progs])
+    t = tlc("TypeSound", env={"PROGS": path}, workers=8, coverage=False, timeout=3000, heap="8g", extra=["-continue"])
+    chk.add_tlc(t)
+    if not t.ok or t.violations:
+        bad = [lang.r_body(progs[int(v["i"]) - 1]["body"])[:200] for _, v in t.violations[:3]]
+        raise ToolError("Typing.tla and Lang.tla disagree (TypeSound.tla): %s %s" % (bad, t.out[-500:] if not t.violations else ""))
+    admitted = sum(1 for x in t.printed("SOUND") if x["admitted"])
+    if t.distinct != len(progs) or admitted < len(progs) // 10:
+        raise ToolError("TypeSound judged %d of %d programs, %d admitted" % (t.distinct, len(progs), admitted))
+    chk.cov["model_consistency_typing_vs_semantics"] = {"programs": len(progs), "admitted_and_evaluated_in_every_state": admitted}
+
+
 def run(chk):
     build_harness()
     quick = chk.tier == "quick"
@@ -164,6 +180,7 @@ def run(chk):
             good.append(("binding", p))
         else:
             ill.append(("binding", dict(p, why="typed declaration / scope judged ill typed by Typing.tla (%s)" % p["fam"])))
+    type_sound(chk, [p for kind, p in good + ill if kind == "binding" and "body" in p and "prop" in p])
     reqs, meta = [], {}
     for n, (kind, p) in enumerate(good):
         src = P.binding_doc([p])[0] if kind == "binding" else P.handler_doc([p])
